@@ -62,6 +62,7 @@ type batchState struct {
 	pool        *eng.Term
 	outstanding bool
 	closed      bool
+	waited      bool // the batch's pool has been waited on (a barrier): no submission may follow
 	poolEvents  bool
 	submitted   bool
 	conc        *eng.Term // result of the concurrency getter
@@ -78,7 +79,7 @@ func (s batchState) Key() string {
 	for _, r := range s.recs {
 		fmt.Fprintf(&sb, "[%s|%s|%d|%v%v%v|%s|%d|%d,%d|%v|%s|%s|%s|%s|%s|%s]", r.loop, r.base.Key(), r.c, r.startOK, r.stored, r.skipped, r.broken, r.done, r.chains, r.submits, r.failed, r.resBad, r.fillBad, r.normBad, r.normSrc.Key()+"/"+r.emptyOf.Key(), r.iterBad+"/"+r.wrapBad+"/"+r.cutBad+"/"+r.fbBad+fmt.Sprint(r.isAppend), r.storePos)
 	}
-	fmt.Fprintf(&sb, "%v,%d,%d,%s,%v,%v,%s,%v%v,%v,%s,%s|", s.chainOpen, s.inTask, s.held, s.flagRead.Key(), s.flagReadOK, s.flagSet, s.pool.Key(), s.outstanding, s.closed, s.poolEvents || s.submitted, s.conc.Key(), s.execIdx.Key())
+	fmt.Fprintf(&sb, "%v,%d,%d,%s,%v,%v,%s,%v%v%v,%v,%s,%s|", s.chainOpen, s.inTask, s.held, s.flagRead.Key(), s.flagReadOK, s.flagSet, s.pool.Key(), s.outstanding, s.closed, s.waited, s.poolEvents || s.submitted, s.conc.Key(), s.execIdx.Key())
 	for _, b := range s.execBases {
 		sb.WriteString(b.Key() + ";")
 	}
@@ -383,6 +384,7 @@ func (m *BatchMon) OnEvent(c *eng.Ctx, ms eng.MState, ev *eng.Event) eng.MState 
 			s.poolEvents = true
 			chk("C06.R4", "submit", len(ev.Args) >= 1 && ev.Args[0] == s.pool && s.pool != nil, "task submitted to a pool other than the batch's pool")
 			chk("C06.R4,C12.R6", "submit", !s.closed, "a task is submitted after the pool was closed (send on a closed channel panics)")
+			chk("C08.R9", "submit", !s.waited, "a task is submitted after the pool was waited on: a barrier inside the submission loop keeps freed workers idle while items are left (the configured concurrency is not usable)")
 			s.outstanding, s.submitted = true, true
 			s.cow()
 			for i := range s.recs {
@@ -393,6 +395,7 @@ func (m *BatchMon) OnEvent(c *eng.Ctx, ms eng.MState, ev *eng.Event) eng.MState 
 		case "pool.Wait":
 			if len(ev.Args) >= 1 && ev.Args[0] == s.pool {
 				s.outstanding = false
+				s.waited = true
 			}
 		case "pool.Close":
 			chk("C06.R4", "pool-close", !s.outstanding, "the pool is closed before Wait: queued tasks may never run")
